@@ -506,9 +506,8 @@ def generate(prop, rng, tier):
             for depths in _exhaustive_shapes(n):
                 for start in range(n):
                     for kind in KINDS:
-                        label, c = gen_case(rng, kind)
                         pool_name = rng.choice(["repeated", "affix"])
-                        sep = c["sep"]
+                        sep = rng.choice(SEPS)
                         par = []
                         stack = []
                         for i, d in enumerate(depths):
